@@ -27,6 +27,7 @@ DRIVER_BIN = os.path.join(LEAN, ".lake", "build", "bin", "driver")
 EVIDENCE = os.path.join(VERIF, "evidence")
 REPLAYS = os.path.join(VERIF, "replays")
 KNOWN = os.path.join(VERIF, "known-findings.json")
+KNOWN_D = os.path.join(VERIF, "known-findings.d")
 ALLOWED_AXIOMS = {"propext", "Classical.choice", "Quot.sound"}
 FORBIDDEN = re.compile(
     r"\bsorry\b|\badmit\b|^\s*axiom\s|native_decide|bv_decide|implemented_by|\bunsafe\s|maxHeartbeats\s+0|@\[extern"
@@ -158,13 +159,13 @@ def audit_axioms(prop, module=None):
     return ok, thms, out
 
 
-def prove(prop, extra_targets=()):
-    """(a) PROOF step: build the property's theorem module and the driver, scan for forbidden
-    tokens, audit axioms.  Returns a dict describing the outcome (never raises)."""
+def prove(prop, cores=(), extra_targets=()):
+    """(a) PROOF step: build the property's theorem module and the per-core drivers it uses, scan
+    for forbidden tokens, audit axioms.  Returns a dict describing the outcome (never raises)."""
     t0 = time.time()
     res = {"module": f"GrassProofs.{prop}", "ok": False, "theorems": {}, "lean_error": None,
            "forbidden": []}
-    rc, out = lake_build([f"GrassProofs.{prop}", "driver"] + list(extra_targets))
+    rc, out = lake_build([f"GrassProofs.{prop}"] + [f"drv_{c}" for c in cores] + list(extra_targets))
     if rc != 0:
         res["lean_error"] = "\n".join(l for l in out.split("\n") if not l.startswith("trace:"))[-4000:]
         res["wall_s"] = time.time() - t0
@@ -179,18 +180,38 @@ def prove(prop, extra_targets=()):
     return res
 
 
-def driver(lines, timeout=1800):
-    """Run the compiled model driver on a batch of request lines; returns the answer lines."""
-    if not lines:
-        return []
-    p = subprocess.run([DRIVER_BIN], input="\n".join(lines) + "\n", stdout=subprocess.PIPE,
+def _driver_one(core, lines, timeout):
+    exe = os.path.join(LEAN, ".lake", "build", "bin", f"drv_{core}")
+    p = subprocess.run([exe], input="\n".join(lines) + "\n", stdout=subprocess.PIPE,
                        stderr=subprocess.PIPE, text=True, timeout=timeout)
     out = p.stdout.split("\n")
     if out and out[-1] == "":
         out.pop()
     if len(out) != len(lines):
-        raise RuntimeError(f"driver answered {len(out)} lines for {len(lines)} requests; stderr={p.stderr[-2000:]}")
+        raise RuntimeError(f"drv_{core} answered {len(out)} lines for {len(lines)} requests "
+                           f"(rc={p.returncode}); stderr={p.stderr[-2000:]}")
     return out
+
+
+def driver(lines, timeout=1800):
+    """Run the compiled model driver(s) on a batch of request lines (`<core> <op> <args…>`, one
+    answer line each, order kept).  Lines are routed by their first token to `drv_<core>`;
+    `ping` answers `pong` locally."""
+    lines = [l.replace("\n", " ") for l in lines]
+    by_core = {}
+    for i, l in enumerate(lines):
+        core = l.split(" ", 1)[0]
+        by_core.setdefault(core, []).append(i)
+    res = [None] * len(lines)
+    for core, idxs in by_core.items():
+        if core == "ping":
+            for i in idxs:
+                res[i] = "pong"
+            continue
+        outs = _driver_one(core, [lines[i] for i in idxs], timeout)
+        for i, o in zip(idxs, outs):
+            res[i] = o
+    return res
 
 
 def hexs(s):
@@ -346,11 +367,18 @@ def compile_job(src=None, style=None, syntax=None, files=None, entry=None, **opt
 # --------------------------------------------------------------------------------------------
 
 def known_findings(prop):
-    try:
-        ks = json.load(open(KNOWN))
-    except OSError:
-        return []
-    return [k for k in ks.get("findings", []) if k.get("property") == prop and k.get("status") == "known"]
+    """Entries of known-findings.json (and known-findings.d/*.json while several builders work in
+    parallel) with status "known" for this property.  Read-only: never written at run time."""
+    out = []
+    paths = [KNOWN] + sorted(
+        os.path.join(KNOWN_D, f) for f in (os.listdir(KNOWN_D) if os.path.isdir(KNOWN_D) else []) if f.endswith(".json"))
+    for p in paths:
+        try:
+            ks = json.load(open(p))
+        except (OSError, ValueError):
+            continue
+        out += [k for k in ks.get("findings", []) if k.get("property") == prop and k.get("status") == "known"]
+    return out
 
 
 def sha(obj):
@@ -389,8 +417,8 @@ class Check:
             self.cov["samples"].append(s)
 
     # -- steps ------------------------------------------------------------------------------
-    def do_prove(self, extra_targets=()):
-        self.proof = prove(self.prop, extra_targets)
+    def do_prove(self, cores=(), extra_targets=()):
+        self.proof = prove(self.prop, cores, extra_targets)
         if not self.proof["ok"]:
             log(f"[{self.prop}] PROOF STEP FAILED:\n{self.proof.get('lean_error')}\n{self.proof.get('forbidden')}")
         return self.proof["ok"]
@@ -434,7 +462,8 @@ class Check:
             return False
         if len(self.violations) < 5:
             path = self.write_replay("impl-violates-property", payload)
-            self.violations.append(("impl", path, ""))
+            if path not in [v[1] for v in self.violations]:
+                self.violations.append(("impl", path, ""))
         return True
 
     def unproved(self, kind, payload):
@@ -455,7 +484,7 @@ class Check:
         cov["obligations"] = max(1, len(thms))
         cov["discharged"] = len(thms) if proof_ok else 0
         cov["checker_cmd"] = checker_cmd or (
-            f"cd lean && lake build GrassProofs.{self.prop} driver && lake env lean ../.build/audit_{self.prop}.lean"
+            f"cd lean && lake build GrassProofs.{self.prop} && lake env lean ../.build/audit_{self.prop}.lean"
             "  (+ forbidden-token scan of Grass/ GrassProofs/ Main.lean)")
         cov["trusted_base"] = list(trusted_base) or [
             "Lean 4.33.0 kernel", "axioms: propext, Classical.choice, Quot.sound (audited per theorem)",
